@@ -280,16 +280,27 @@ func kindsOf(n *Node) []string {
 // call graph, so the walker records the raw material and finish() decides).
 func (w *siteWalker) classifyPeerClose(s *Site, call *ast.CallExpr) {
 	a := w.a
-	// calls made by the statements that precede the close in its block
-	bi := len(w.blockStack) - 1
+	// calls made by the statements that dominate the close: the statements
+	// preceding it in its block and in every enclosing block of the function
 	var pre []string
-	if bi >= 0 {
-		for i := 0; i < w.stmtIndex[bi]; i++ {
+	for bi := len(w.blockStack) - 1; bi >= 0; bi-- {
+		for i := 0; i < w.stmtIndex[bi] && i < len(w.blockStack[bi]); i++ {
 			ast.Inspect(w.blockStack[bi][i], func(x ast.Node) bool {
+				if _, isLit := x.(*ast.FuncLit); isLit {
+					return false
+				}
 				if c, ok := x.(*ast.CallExpr); ok {
 					if fn := calleeOf(a.curPkg.Info, c); fn != nil {
 						if n, ok := a.byName[fn.FullName()]; ok {
 							pre = append(pre, n.Key)
+						}
+						// X.close() of a router component: it has stopped when the call returns
+						if sel, ok := unparen(c.Fun).(*ast.SelectorExpr); ok && sel.Sel.Name == "close" && len(c.Args) == 0 {
+							if rt := a.typeOf(sel.X); rt != nil {
+								if p, nm, ok := namedOf(deref(rt)); ok {
+									pre = append(pre, "stopped:"+shortName(p+"."+nm))
+								}
+							}
 						}
 					}
 				}
@@ -298,6 +309,7 @@ func (w *siteWalker) classifyPeerClose(s *Site, call *ast.CallExpr) {
 		}
 	}
 	s.After = pre
+	s.Detail = append([]string{}, w.condStack...)
 }
 
 func (g *graphInfo) finishPeerClose(sites []*Site) {
@@ -322,7 +334,12 @@ func (g *graphInfo) finishPeerClose(sites []*Site) {
 		s.After = nil
 		afterLoop := false
 		owners := map[string]bool{}
+		stopped := map[string]bool{}
 		for _, p := range pre {
+			if strings.HasPrefix(p, "stopped:") {
+				stopped[p] = true
+				continue
+			}
 			for r := range g.reach(p) {
 				if g.handlerLoop[r] {
 					afterLoop = true
@@ -339,11 +356,17 @@ func (g *graphInfo) finishPeerClose(sites []*Site) {
 		for o := range owners {
 			os = append(os, "removed-from:"+o)
 		}
+		for o := range stopped {
+			os = append(os, o)
+		}
 		sort.Strings(os)
 		s.After = append(s.After, os...)
 		switch {
 		case n.GoLaunched && afterLoop:
 			s.Path = "exit"
+		case stopped["stopped:router.broker"] || stopped["stopped:router.dealer"]:
+			// the shutdown path: after broker and dealer have stopped
+			s.Path = "shutdown"
 		default:
 			s.Path = "other"
 			// the attach path: a node (or an enclosing one) that starts the
